@@ -147,4 +147,60 @@ size_t w_val_strcopy(const value* v, char* buf, size_t cap) { auto s = v->data<d
 size_t w_val_arrlen(const value* v) { return v->data<d_array>()->size(); }
 const value* w_val_arrat(const value* v, size_t i) { return &v->data<d_array>()->at(i); }
 const void* w_val_dataptr(const value* v) { return v->data().get(); }
+size_t w_val_tostring(const value* v, char* buf, size_t cap) { auto s = v->to_string_sqf(); size_t n = s.length() < cap ? s.length() : cap; for (size_t i = 0; i < n; i++) buf[i] = s[i]; return s.length(); }
+
+// ---- compile only: instruction listing of parsed text
+void* w_vm_compile(void* p, const char* code, size_t n)
+{
+    auto v = (vm_t*)p;
+    auto set = v->rt->parser_sqf().parse(*v->rt, std::string(code, n), { std::string_view("harness"), std::string_view() });
+    if (!set.has_value()) return nullptr;
+    return new instruction_set(set.value());
+}
+size_t w_iset_size(void* h) { return ((instruction_set*)h)->size(); }
+size_t w_iset_tostring(void* h, size_t i, char* buf, size_t cap) { auto s = (*(((instruction_set*)h)->begin() + i))->to_string(); size_t n = s.length() < cap ? s.length() : cap; for (size_t k = 0; k < n; k++) buf[k] = s[k]; return s.length(); }
+void w_iset_free(void* h) { delete (instruction_set*)h; }
+// parse and create a context holding the code, without executing (for stepping / scheduling harnesses). returns 0 ok, -3 parse failure
+int w_vm_push_code(void* p, const char* code, size_t n, int can_suspend)
+{
+    auto v = (vm_t*)p;
+    auto set = v->rt->parser_sqf().parse(*v->rt, std::string(code, n), { std::string_view("harness"), std::string_view() });
+    if (!set.has_value()) return -3;
+    auto context = v->rt->context_create().lock();
+    context->can_suspend(can_suspend != 0);
+    context->push_frame({ v->rt->default_value_scope(), set.value() });
+    return 0;
+}
+// config text -> confighost through the real config parser. returns 1 ok, 0 failed
+int w_vm_parse_config(void* p, const char* text, size_t n)
+{
+    auto v = (vm_t*)p;
+    return v->rt->parser_config().parse(v->rt->confighost(), std::string(text, n), { std::string_view("harness.cpp"), std::string_view() }) ? 1 : 0;
+}
+// real preprocessor on a text; returns output length (copied to buf up to cap) or -1 when preprocess() returned no value
+long w_vm_preprocess(void* p, const char* text, size_t n, char* buf, size_t cap)
+{
+    auto v = (vm_t*)p;
+    auto pp = v->rt->parser_preprocessor().preprocess(*v->rt, std::string_view(text, n), { std::string_view("harness.sqf"), std::string_view() });
+    if (!pp.has_value()) return -1;
+    size_t k = pp->length() < cap ? pp->length() : cap;
+    for (size_t i = 0; i < k; i++) buf[i] = (*pp)[i];
+    return (long)pp->length();
+}
+// configuration fields (these are documented configuration, not hooks)
+void w_vm_set_cfg(void* p, int what, long val)
+{
+    auto& c = ((vm_t*)p)->rt->configuration();
+    if (what == 0) c.max_loop_iterations_in_unscheduled = (size_t)val;
+    else if (what == 1) c.max_runtime = std::chrono::milliseconds(val);
+    else if (what == 2) c.disable_sleep = val != 0;
+}
+// ---- operand stack / frame observation (read-only accessors of the public API named in the property's observe_at)
+int w_vm_mon_enable(void*) { return 0; }
+size_t w_ctx_values_size(void* p, size_t ci) { auto rt = ((vm_t*)p)->rt; return (*(rt->context_begin() + ci))->values_size(); }
+size_t w_ctx_frames_size(void* p, size_t ci) { auto rt = ((vm_t*)p)->rt; return (*(rt->context_begin() + ci))->frames_size(); }
+size_t w_ctx_frame_vsp(void* p, size_t ci, size_t fi_from_top) { auto rt = ((vm_t*)p)->rt; return ((*(rt->context_begin() + ci))->frames_rbegin() + fi_from_top)->value_stack_pos(); }
+const value* w_ctx_value_at(void* p, size_t ci, size_t k) { auto rt = ((vm_t*)p)->rt; return &*((*(rt->context_begin() + ci))->values_begin() + k); }
+const void* w_ctx_ptr(void* p, size_t ci) { auto rt = ((vm_t*)p)->rt; return (rt->context_begin() + ci)->get(); }
+int w_ctx_suspended(void* p, size_t ci) { auto rt = ((vm_t*)p)->rt; return (*(rt->context_begin() + ci))->suspended() ? 1 : 0; }
 }
